@@ -2,6 +2,7 @@ import Proofs.Lemmas.Adders
 import Proofs.Lemmas.KoggeStone
 import Proofs.Lemmas.SeqMult
 import Proofs.Lemmas.Wallace
+import Proofs.Lemmas.Signed
 /-!
 # C13 — rtllib adders and multipliers are exact for all widths and values
 
@@ -61,10 +62,10 @@ open Pyrtl.SeqMult in
     the accumulator then holds exactly `A * B`. -/
 theorem seq_mult_done_and_exact (alen blen s A B : Nat) (hs : 1 ≤ s) (hA : A < 2 ^ alen) (hB : B < 2 ^ blen)
     (st0 : St) (ops : List (Nat × Nat)) (hlen : alen ≤ ops.length) :
-    done (idle alen blen s (step alen blen s st0 true A B) ops) = true ∧
-    (idle alen blen s (step alen blen s st0 true A B) ops).acc = A * B := by
-  have h0 : step alen blen s st0 true A B = shape alen blen s A B 0 := by
-    rw [shape_zero _ _ _ _ _ hB]; simp [step]
+    done (idle alen blen s (SeqMult.step alen blen s st0 true A B) ops) = true ∧
+    (idle alen blen s (SeqMult.step alen blen s st0 true A B) ops).acc = A * B := by
+  have h0 : SeqMult.step alen blen s st0 true A B = shape alen blen s A B 0 := by
+    rw [shape_zero _ _ _ _ _ hB]; simp [SeqMult.step]
   obtain ⟨j', _, h2, h3, h4⟩ := idle_from_shape alen blen s A B ops 0
   rw [h0, h3]
   have hz : (shape alen blen s A B j').a = 0 := by
@@ -83,10 +84,10 @@ open Pyrtl.SeqMult in
 /-- whenever `done` is seen after a start (however early), the accumulator is exactly `A * B` -/
 theorem seq_mult_exact_whenever_done (alen blen s A B : Nat) (hA : A < 2 ^ alen) (hB : B < 2 ^ blen)
     (st0 : St) (ops : List (Nat × Nat))
-    (hd : done (idle alen blen s (step alen blen s st0 true A B) ops) = true) :
-    (idle alen blen s (step alen blen s st0 true A B) ops).acc = A * B := by
-  have h0 : step alen blen s st0 true A B = shape alen blen s A B 0 := by
-    rw [shape_zero _ _ _ _ _ hB]; simp [step]
+    (hd : done (idle alen blen s (SeqMult.step alen blen s st0 true A B) ops) = true) :
+    (idle alen blen s (SeqMult.step alen blen s st0 true A B) ops).acc = A * B := by
+  have h0 : SeqMult.step alen blen s st0 true A B = shape alen blen s A B 0 := by
+    rw [shape_zero _ _ _ _ _ hB]; simp [SeqMult.step]
   obtain ⟨j', _, _, h3, _⟩ := idle_from_shape alen blen s A B ops 0
   rw [h0, h3] at hd ⊢
   exact shape_done_acc _ _ _ _ _ _ hA hB (by simpa [done] using hd)
@@ -164,6 +165,94 @@ theorem tree_multiplier_kogge_stone_exact (A B : List Bool) (hA : A ≠ []) (hB 
 theorem fast_group_adder_kogge_stone_exact (ws : List (List Bool)) :
     toNat (fastGroupAdder (fun a b => koggeStone a b false) ws) = (ws.map toNat).sum :=
   fast_group_adder_exact _ (fun a b => by simpa [b2n] using kogge_stone_exact a b false) ws
+
+/-- **`generalized_fma`** (hence `fused_multiply_adder`), Wallace reducer: the exact sum of products plus
+    addends, for any number of pairs and addends of any (non-zero) lengths -/
+theorem generalized_fma_exact (adder : List Bool → List Bool → List Bool)
+    (hadd : ∀ a b, toNat (adder a b) = toNat a + toNat b)
+    (pairs : List (List Bool × List Bool)) (adds : List (List Bool))
+    (hp : ∀ p ∈ pairs, p.1 ≠ [] ∧ p.2 ≠ []) :
+    toNat (generalizedFma adder pairs adds) =
+      (pairs.map fun p => toNat p.1 * toNat p.2).sum + (adds.map toNat).sum := by
+  unfold generalizedFma
+  simp only []
+  generalize hL : max (maxList (adds.map List.length)) (maxList (pairs.map fun p => p.1.length + p.2.length - 1)) = L
+  have hpl : ∀ p ∈ pairs, p.1.length + p.2.length ≤ (List.replicate L ([] : List Bool)).length + 1 := by
+    intro p hpm
+    have h1 := le_maxList (pairs.map fun p => p.1.length + p.2.length - 1) (p.1.length + p.2.length - 1)
+      (List.mem_map.mpr ⟨p, hpm, rfl⟩)
+    rw [List.length_replicate]; omega
+  obtain ⟨hl1, hv1⟩ := foldl_pushProd pairs (List.replicate L []) hpl
+  have hal : ∀ w ∈ adds, w.length ≤ (pairs.foldl pushProd (List.replicate L [])).length := by
+    intro w hw
+    have := le_maxList (adds.map List.length) w.length (List.mem_map.mpr ⟨w, hw, rfl⟩)
+    rw [hl1, List.length_replicate]; omega
+  obtain ⟨hl2, hv2⟩ := foldl_pushWire adds _ hal
+  rw [hl1, List.length_replicate] at hl2
+  rw [wallaceReducer_val adder hadd _ _ (by rw [hl2]; exact Nat.le_max_left _ _), hv2, hv1,
+    colsVal_replicate, Nat.zero_add]
+  apply Nat.mod_eq_of_lt
+  have hb := lt_two_pow_bitLength ((pairs.map fun p => (2 ^ p.1.length - 1) * (2 ^ p.2.length - 1)).sum
+    + (adds.map fun w => 2 ^ w.length - 1).sum)
+  have h1 := sum_prod_le pairs
+  have h2 := sum_add_le adds
+  exact lt_of_lt_of_le (lt_of_le_of_lt (Nat.add_le_add h1 h2) hb)
+    (Nat.pow_le_pow_right (by decide) (Nat.le_max_right _ _))
+
+/-- **`carrysave_adder`**: the exact sum of three operands of any lengths, with any exact final adder -/
+theorem carrysave_exact (adder : List Bool → List Bool → List Bool)
+    (hadd : ∀ a b, toNat (adder a b) = toNat a + toNat b) (a b c : List Bool) :
+    toNat (carrysaveAdder adder a b c) = toNat a + toNat b + toNat c := by
+  unfold carrysaveAdder
+  simp only []
+  generalize hn : max a.length (max b.length c.length) = n
+  have ha := zext_length a n (by omega)
+  have hb := zext_length b n (by omega)
+  have hc := zext_length c n (by omega)
+  have key := carrysave_bits (zext a n) (zext b n) (zext c n) (by rw [ha, hb]) (by rw [hb, hc])
+  rw [toNat_zext, toNat_zext, toNat_zext] at key
+  generalize hps : List.zipWith (fun x yz => xor (xor x yz.1) yz.2) (zext a n) (List.zip (zext b n) (zext c n)) = ps at key
+  generalize hsc : List.zipWith (fun x yz => (x || yz.1) && (x || yz.2) && (yz.1 || yz.2)) (zext a n)
+    (List.zip (zext b n) (zext c n)) = sc at key
+  have hlen : ps.length = n := by rw [← hps]; simp [ha, hb, hc]
+  have hlen2 : sc.length = n := by rw [← hsc]; simp [ha, hb, hc]
+  split
+  · rename_i h1
+    have h1' : n = 1 := by simpa using h1
+    have e : toNat (ps ++ sc ++ [false]) = toNat ps + 2 * toNat sc := by
+      simp [toNat_append, toNat, b2n, hlen, h1']
+    rw [e]; exact key
+  · rw [toNat_append, hadd]
+    cases ps with
+    | nil =>
+      have hn0 : n = 0 := by simpa using hlen.symm
+      have hsc0 : sc = [] := List.eq_nil_of_length_eq_zero (by rw [hlen2, hn0])
+      subst hsc0
+      simp only [List.take_nil, List.drop_nil, toNat, List.length_nil, Nat.pow_zero] at key ⊢
+      omega
+    | cons p ps' =>
+      simp only [List.take_succ_cons, List.take_zero, List.drop_succ_cons, List.drop_zero, toNat, List.length_cons,
+        List.length_nil, Nat.zero_add, Nat.pow_one, Nat.mul_zero, Nat.add_zero] at key ⊢
+      omega
+
+/-- **`signed_tree_multiplier`**: conditional two's complement of both operands, an exact unsigned
+    multiplier (`tree_multiplier`, see `tree_multiplier_exact`) and a conditional two's complement of the
+    product give exactly the product of the two's-complement values in `len(A)+len(B)` bits — for every
+    operand, *including the most negative one of each width* (whose magnitude `2^(n-1)` still fits the
+    unsigned `n`-bit operand of the inner multiplier). -/
+theorem signed_tree_multiplier_exact (mul : Ops.Sig → Ops.Sig → Ops.Sig)
+    (hmul : ∀ x y : Ops.Sig, mul x y = (x.1 + y.1, x.2 * y.2))
+    (wa a wb b : Nat) (hwa : 0 < wa) (hwb : 0 < wb) (ha : a < 2 ^ wa) (hb : b < 2 ^ wb) :
+    (Ops.signedTreeMult mul (wa, a) (wb, b)).1 = wa + wb ∧
+    Ops.toSigned (Ops.signedTreeMult mul (wa, a) (wb, b)) = Ops.toSigned (wa, a) * Ops.toSigned (wb, b) :=
+  Ops.signedTreeMult_exact mul hmul wa a wb b hwa hwb ha hb
+
+-- the most negative operands: (-4) x (-8) = 32 in 7 bits; (-4) x 7 = -28
+example : Ops.toSigned (Ops.signedTreeMult (fun x y => (x.1 + y.1, x.2 * y.2)) (3, 4) (4, 8)) = 32 := by decide
+example : Ops.toSigned (Ops.signedTreeMult (fun x y => (x.1 + y.1, x.2 * y.2)) (3, 4) (4, 7)) = -28 := by decide
+
+example : toNat (generalizedFma (fun a b => koggeStone a b false) [(ofNat 3 7, ofNat 3 7)] [ofNat 4 15]) = 64 := by decide
+example : toNat (carrysaveAdder (fun a b => rippleAdd a b false) (ofNat 3 7) (ofNat 1 1) (ofNat 2 3)) = 11 := by decide
 
 example : toNat (treeMultiplier (fun a b => koggeStone a b false) (ofNat 4 13) (ofNat 3 7)) = 91 := by decide
 example : toNat (fastGroupAdder (fun a b => rippleAdd a b false) [ofNat 3 7, ofNat 2 3, ofNat 3 5, ofNat 1 1, ofNat 3 6]) = 22 := by decide
